@@ -53,7 +53,7 @@ BUILTIN == -1        \* directory id reported for "<builtin>"
 SYSDIR  == 0         \* compiled-in <libdir>/girepository-1.0
 EmptyMap == [x \in {} |-> 0]
 
-Range(s) == {s[i] : i \in DOMAIN s}
+Rng(s) == {s[i] : i \in DOMAIN s}
 MinOf(S) == CHOOSE x \in S : \A y \in S : x <= y
 DiskAt(dk, d) == IF d \in DOMAIN dk THEN dk[d] ELSE {}
 
@@ -209,9 +209,9 @@ RECURSIVE TransDeps(_, _, _)
 TransDeps(L, todo, seen) ==
     IF todo = {} THEN seen
     ELSE LET x == CHOOSE x \in todo : TRUE
-             more == IF x.ns \in DOMAIN L THEN Range(L[x.ns].c.deps) ELSE {}
+             more == IF x.ns \in DOMAIN L THEN Rng(L[x.ns].c.deps) ELSE {}
          IN TransDeps(L, (todo \cup more) \ (seen \cup {x}), seen \cup {x})
-DepsAllLoaded(L, n) == \A x \in TransDeps(L, Range(L[n].c.deps), {}) : x.ns \in DOMAIN L
+DepsAllLoaded(L, n) == \A x \in TransDeps(L, Rng(L[n].c.deps), {}) : x.ns \in DOMAIN L
 
 IQuery(dk, s, c) ==      \* answer of a query call in state s = [path, L]
     LET L == s.L
@@ -220,9 +220,9 @@ IQuery(dk, s, c) ==      \* answer of a query call in state s = [path, L]
          [] c.op = "Version" -> IF ld THEN Plain0("ok", L[c.ns].c.ver) ELSE Plain0("notloaded", "")
          [] c.op = "TypelibPath" -> IF ld THEN Obs("ok", "", {}, L[c.ns].dir, L[c.ns].fns, L[c.ns].fver)
                                     ELSE Plain0("notloaded", "")
-         [] c.op = "ImmediateDeps" -> IF ld THEN Obs("ok", "", {DepStr(d) : d \in Range(L[c.ns].c.deps)}, 0, "", "")
+         [] c.op = "ImmediateDeps" -> IF ld THEN Obs("ok", "", {DepStr(d) : d \in Rng(L[c.ns].c.deps)}, 0, "", "")
                                       ELSE Plain0("notloaded", "")
-         [] c.op = "Deps" -> IF ld THEN Obs("ok", "", {DepStr(d) : d \in TransDeps(L, Range(L[c.ns].c.deps), {})}, 0, "", "")
+         [] c.op = "Deps" -> IF ld THEN Obs("ok", "", {DepStr(d) : d \in TransDeps(L, Rng(L[c.ns].c.deps), {})}, 0, "", "")
                              ELSE Plain0("notloaded", "")
          [] c.op = "EnumerateVersions" ->
                 Obs("ok", "", {e.f.fver : e \in IEnum(dk, s.path, c.ns)} \cup (IF ld THEN {L[c.ns].c.ver} ELSE {}), 0, "", "")
@@ -285,9 +285,9 @@ Clo(dk, gp, L, todo, seen) ==
     ELSE LET x == CHOOSE x \in todo : TRUE
              ff == FirstFile(dk, gp, x.ns, x.ver)
              more == IF x.ns \in DOMAIN L \/ ff = {} THEN {}
-                     ELSE LET f == (CHOOSE e \in ff : TRUE).f IN IF Good(f) THEN Range(f.deps) ELSE {}
+                     ELSE LET f == (CHOOSE e \in ff : TRUE).f IN IF Good(f) THEN Rng(f.deps) ELSE {}
          IN Clo(dk, gp, L, (todo \cup more) \ (seen \cup {x}), seen \cup {x})
-Nodes(dk, s, e) == Clo(dk, s.path, s.L, Range(e.f.deps), {})
+Nodes(dk, s, e) == Clo(dk, s.path, s.L, Rng(e.f.deps), {})
 NodeMissing(dk, s, x) == x.ns \notin DOMAIN s.L /\ FirstFile(dk, s.path, x.ns, x.ver) = {}
 NodeBad(dk, s, x) == /\ x.ns \notin DOMAIN s.L
                      /\ \E l \in FirstFile(dk, s.path, x.ns, x.ver) : ~Good(l.f)
@@ -361,7 +361,7 @@ Ante(k, dk, s, c, o) ==
     [] k = "Q_IsRegistered" ->
          c.op = "IsRegistered"
 
-Cons(k, dk, s, c, o, t) ==
+Conseq(k, dk, s, c, o, t) ==
   LET L == s.L
       n == Tgt(dk, c)
       E == Elected(dk, s, c)
@@ -404,7 +404,8 @@ Cons(k, dk, s, c, o, t) ==
     [] k = "OnlyClosure" ->
           \A m \in (DOMAIN t.L) \ (DOMAIN L) : (m # n) =>
               (/\ ~t.L[m].lazy
-               /\ IF zone \/ ~Speaks(dk, s, c) \/ Was(dk, s, c) THEN LegitFile(dk, t.L[m], m)
+               /\ IF zone \/ ~Speaks(dk, s, c) \/ Was(dk, s, c) \/ (\E e \in E : TouchesLazy(dk, s, e))
+                  THEN LegitFile(dk, t.L[m], m)
                   ELSE \E e \in E : \E x \in Nodes(dk, s, e) :
                           (x.ns = m /\ \E l \in FirstFile(dk, s.path, m, x.ver) : (Good(l.f) /\ EntryIs(t.L[m], l))))
     \* silent zones: any of the statement's results, but what is registered afterwards is a real thing
@@ -420,10 +421,10 @@ Cons(k, dk, s, c, o, t) ==
           IF ld THEN o.res = "ok" /\ o.rdir = L[c.ns].dir /\ o.rfns = L[c.ns].fns /\ o.rfver = L[c.ns].fver
                 ELSE o.res = "notloaded"
     [] k = "Q_ImmediateDeps" ->
-          IF ld THEN o.res = "ok" /\ o.names = {DepStr(d) : d \in Range(L[c.ns].c.deps)}
+          IF ld THEN o.res = "ok" /\ o.names = {DepStr(d) : d \in Rng(L[c.ns].c.deps)}
                 ELSE o.res = "notloaded"
     [] k = "Q_Deps" ->
-          IF ld THEN o.res = "ok" /\ o.names = {DepStr(d) : d \in TransDeps(L, Range(L[c.ns].c.deps), {})}
+          IF ld THEN o.res = "ok" /\ o.names = {DepStr(d) : d \in TransDeps(L, Rng(L[c.ns].c.deps), {})}
                 ELSE o.res = "notloaded"
     \* (not in the statement's text, kept weak) every plainly named file's version and the loaded
     \* version are listed; nothing is listed that is neither a file of that name nor loaded
@@ -440,7 +441,7 @@ ClauseNames == {"PathFrame", "PrependFront", "QueryPure", "ResultKind", "EagerSt
 \* state clauses, true of every state reached by the real code
 \* DepsClosed: every (non-lazily) loaded namespace's recorded dependencies are loaded at the recorded version
 DepsClosed(L) == \A m \in DOMAIN L : ~L[m].lazy =>
-                    \A d \in Range(L[m].c.deps) : d.ns \in DOMAIN L /\ L[d.ns].c.ver = d.ver
+                    \A d \in Rng(L[m].c.deps) : d.ns \in DOMAIN L /\ L[d.ns].c.ver = d.ver
 \* OneVersionPerNs / ReportedMatchesLoaded, state form: an entry is registered under its own namespace
 OwnName(L) == \A m \in DOMAIN L : L[m].c.ns = m
 StateNames == {"DepsClosed", "OwnName"}
@@ -470,7 +471,7 @@ Cause(dk, s, c) ==
 
 \* the clauses an observed step breaks, as <<clause, cause>>; state clauses count when they BECOME false
 Broken(dk, s, c, o, t) ==
-    {<<k, Cause(dk, s, c)>> : k \in {k \in ClauseNames : Ante(k, dk, s, c, o) /\ ~Cons(k, dk, s, c, o, t)}
+    {<<k, Cause(dk, s, c)>> : k \in {k \in ClauseNames : Ante(k, dk, s, c, o) /\ ~Conseq(k, dk, s, c, o, t)}
                                      \cup {k \in StateNames : StateHolds(s.L)[k] /\ ~StateHolds(t.L)[k]}}
 Exercised(dk, s, c, o) == {k \in ClauseNames : Ante(k, dk, s, c, o)}
 
@@ -502,7 +503,9 @@ Init == /\ disk \in DiskConfigs
 Do(c) == \E r \in IStep(disk, S, c) :
             /\ path' = r.path
             /\ loaded' = r.L
-            /\ last' = [c |-> c, o |-> r.o, broken |-> Broken(disk, S, c, r.o, [path |-> r.path, L |-> r.L]), pre |-> loaded]
+            /\ last' = [c |-> c, o |-> r.o, broken |-> IF <<"SKIP", "SKIP">> \in Known THEN {}      \* simulation: behaviours only
+                                  ELSE Broken(disk, S, c, r.o, [path |-> r.path, L |-> r.L]),
+                        pre |-> loaded]
             /\ ncalls' = ncalls + 1
             /\ UNCHANGED disk
 
